@@ -456,6 +456,23 @@ func (w *SubWorld) SubscriptionDoc(selIndex int, topic string) (src, op string) 
 	return src, "S"
 }
 
+// SubscribeExe registers subscriber sid through a parsed subscription document
+// (SubscriptionDoc) that the caller resolves once per subscriber.
+func (w *SubWorld) SubscribeExe(exe *ggql.Executable, op string, sid int) string {
+	res, err := w.Root.ResolveExecutable(exe, op, map[string]interface{}{"sid": sid})
+	m := map[string]interface{}{"data": nil}
+	if res != nil {
+		m = map[string]interface{}{}
+		for k, v := range res {
+			m[k] = v
+		}
+	}
+	if err != nil {
+		m["errors"] = ggql.FormErrorsResult(err)
+	}
+	return CanonLite(m)
+}
+
 // Publish publishes event n on topic.
 func (w *SubWorld) Publish(topic string, n int) (int, error) {
 	var ev interface{}
